@@ -335,6 +335,16 @@ class DateTime(datetime.datetime, Date):
     def time(self) -> Time:
         return Time(self.hour, self.minute, self.second, self.microsecond)
 
+    def timetz(self) -> Time:
+        return Time(
+            self.hour,
+            self.minute,
+            self.second,
+            self.microsecond,
+            tzinfo=self.tzinfo,
+            fold=self.fold,
+        )
+
     def naive(self) -> Self:
         """
         Return the DateTime without timezone information.
